@@ -184,6 +184,7 @@ def _dft2(fn, mat_params, mats):
     if defaults != {'shape': 'None', 'shift': '(0, 0)', 'offset': '(0, 0)', 'unitary': 'True', 'out': 'None'}:
         raise Refuse(f'dft2: defaults changed: {defaults}')
     env, shape_default, call, prod, scale = {}, None, None, None, None
+    out_guard = False
     for s in _body(fn):
         t = _u(s)
         if isinstance(s, ast.Assign) and isinstance(s.targets[0], ast.Tuple) and _is_call(s.value, 'np.broadcast_to'):
@@ -205,13 +206,18 @@ def _dft2(fn, mat_params, mats):
                 raise Refuse(f'dft2: shape default changed: {t[:80]}')
             shape_default = [LEAF[env[x.id]] for x in s.body[0].value.elts]
         elif isinstance(s, ast.If) and _u(s.test) == 'out is not None':
-            if 'np.can_cast(complex, out.dtype)' not in t or 'raise TypeError' not in t: raise Refuse('dft2: out dtype guard changed')
+            g = s.body[0] if len(s.body) == 1 and not s.orelse else None
+            if not (isinstance(g, ast.If) and _u(g.test) == 'not np.can_cast(complex, out.dtype)' and len(g.body) == 1 and not g.orelse
+                    and isinstance(g.body[0], ast.Raise) and _u(g.body[0].exc).startswith('TypeError(')):
+                raise Refuse('dft2: out dtype guard changed')
+            out_guard = True
         elif isinstance(s, ast.Assign) and _is_call(s.value, '_dft2_matrices'):
             if s.value.keywords or len(s.value.args) != len(mat_params) or not all(isinstance(a, ast.Name) for a in s.value.args):
                 raise Refuse(f'dft2: _dft2_matrices call changed: {t[:90]}')
             call = (_names(s.targets[0]), [a.id for a in s.value.args])
         elif isinstance(s, ast.Assign) and _u(s.targets[0]) == 'F':
             prod = s.value
+            prod_out = [(_k.arg, _u(_k.value)) for _k in s.value.keywords] if isinstance(s.value, ast.Call) else []
         elif isinstance(s, ast.If) and _u(s.test) == 'unitary':
             c = s.body[0].value if len(s.body) == 1 and isinstance(s.body[0], ast.Expr) else None
             if not (c is not None and not s.orelse and _is_call(c, 'np.multiply') and len(c.args) == 2 and _u(c.args[0]) == 'F'
@@ -223,6 +229,7 @@ def _dft2(fn, mat_params, mats):
         else:
             raise Refuse(f'dft2: unexpected statement `{t[:70]}`')
     if None in (shape_default, call, prod, scale): raise Refuse('dft2: a required statement is missing')
+    if not out_guard or prod_out != [('out', 'out')]: raise Refuse('dft2: the out= path (dtype guard, np.dot(..., out=out)) changed')
     (e1n, e2n), cargs = call
     # arguments as passed: matrices parameter -> Lean expression of the dft2 leaf
     passed = {}
@@ -255,7 +262,7 @@ def _dft2(fn, mat_params, mats):
         raise Refuse(f'dft2: unsupported product expression {_u(e)[:60]}')
     fprod, oshape = tree(prod, top=True)
     return {'passed': passed, 'prod': fprod('u', 'v'), 'oshape': oshape, 'scale': scale, 'shape_default': shape_default,
-            'offset_default': defaults['offset'], 'unitary_default': defaults['unitary']}
+            'offset_default': defaults['offset'], 'unitary_default': defaults['unitary'], 'out_guard': out_guard}
 
 
 # ------------------------------------------------------------------------------------------ idft2
@@ -397,6 +404,11 @@ def generate(repo):
     L.append(f'/-- `dft2`: shape of the result, and the `shape=None` default -/\n'
              f'def fwDft2OutShape (m n shape0 shape1 : Int) : Int × Int := ({d["oshape"][0]}, {d["oshape"][1]})\n'
              f'def fwDft2ShapeDefault (m n : Int) : Int × Int := ({d["shape_default"][0]}, {d["shape_default"][1]})\n')
+    L.append('/-- `dft2`, the `out=` path: under `if out is not None:` a buffer whose dtype cannot hold complex numbers '
+             '(`not np.can_cast(complex, out.dtype)`) raises `TypeError`; otherwise the product is evaluated with `np.dot(…, out=out)`, whose result '
+             'IS the buffer (and the unitary scaling writes into it) -/\n'
+             'def fwOutRefused (canCastComplex : Bool) : Bool := !canCastComplex\n'
+             'def fwOutResultIsBuffer : Bool := true\n')
     L.append(f'/-- `idft2` (line {fns["idft2"].lineno}), evaluated symbolically: which array is conjugated before and after, which of its parameters '
              f'feed `dft2`\'s `alpha`, `shape`, `shift`, `unitary`, the divisor and the condition under which it is applied. `dft2` is called with '
              f'its default offset `fwIdft2Offset`. -/\n'
